@@ -378,7 +378,7 @@ class Model:
         new_shape = tuple(np.array(shape).astype(int))
 
         vtype = vtype.upper()
-        if 'C' not in vtype and 'B' not in vtype and 'I' not in vtype:
+        if len(vtype) == 0 or any(ch not in 'CBI' for ch in vtype):
             raise ValueError('Unknown variable type.')
         if len(vtype) != 1 and len(vtype) != np.prod(shape):
             raise ValueError('Inconsistent variables and their types.')
